@@ -59,8 +59,12 @@ def to_single_line(text):
     return text
 
 
-def tokens_to_string(tokens):
+def tokens_to_string(tokens, text=None):
     # converts list of token (after lexer) to original string
+
+    if text is not None:
+        # token values of strings/variables are rewritten by the lexer: cut the source text instead
+        return text[tokens[0].index: tokens[-1].end]
 
     line_num = tokens[0].lineno
     shift = tokens[0].index
